@@ -296,5 +296,5 @@ def run(tier="quick"):
     rep.not_decided = ["ordering relative to other events of the same instant"]
     for m in models:
         rep.configs.append(m.config)
-        rules(rep, m)
+        common.run_rules(rep, m, rules)
     return rep.finish()
